@@ -984,7 +984,7 @@ def suite_exhaustive(tier, seed, backend="sql", pid="RELAY"):
         [(0, ["REQ", "s", F2]), (0, ["EVENT", evs[3]]), (1, ["REQ", "s", F1])],
         [(1, ["EVENT", evs[2]]), (0, ["REQ", "a", F1]), (1, ["EVENT", evs[3]])],
     ]
-    scripts = scripts[:1] if tier != "thorough" else scripts[:2]
+    scripts = scripts[:1] if tier != "thorough" else scripts[:3]
     cases, impls, healths = [], [], []
 
     async def one(script, slots):
@@ -998,7 +998,7 @@ def suite_exhaustive(tier, seed, backend="sql", pid="RELAY"):
         for (c, m) in script:
             await d.msg(c, m)
             for _ in range(2):
-                ch = next(it)
+                ch = next(it, 0)
                 acts = [("row",) + rs for rs in d.running_subs()] + [("notify", i) for i in range(len(d.pending))]
                 if ch == 0 or not acts:
                     continue
@@ -1021,7 +1021,7 @@ def suite_exhaustive(tier, seed, backend="sql", pid="RELAY"):
                {"transcripts": tr, "registries": regs, "pending": npending}, health
     B = 3 if tier == "thorough" else 2
     for script in scripts:
-        for slots in itertools.product(range(B), repeat=2 * len(script)):
+        for slots in itertools.product(range(B), repeat=(2 * len(script) if tier != "thorough" else 4)):
             case, impl, health = env.run(one(script, slots))
             cases.append(case)
             impls.append(impl)
